@@ -48,6 +48,16 @@ seed 0).  All 22 gave VIOLATION with a shrunk replay (what manifested is given a
   X3  field.index_doc: same-value short-cut bumps `_num_docs` -> ic=2 after re-indexing identical content
   X4  field.document_repr: implicit default '' instead of None -> repr called without a default
 (K4 and F1 were re-run with the numdocs probe disabled: caught through the public API alone.)
+Bulk modes (field / keyword / facet: the mutating commands of the bulk histories of props/c01, c02, c13 with this
+property's probes; measured, quick tier, seed 0: 11% / 15% / 11% of the kind's cases are bulk, a posting of 65-300
+docids in 8-11%, > 30 distinct values in 3-4%, > 120 documents without a value in 1-1.5%; 60% of the keyword/facet
+bulk cases run under the class default tree_threshold) and the value pools of C01/C02 (num, tuple, bytes, wide).
+Size- / value-dependent mutations (scratch copies /var/tmp/mut_strong1_<N>), all VIOLATION:
+  M2  field.index_doc takes a falsy value ('' / () / b'') as "no value"
+  M3  keyword.unindex_doc skips postings with more than 100 docids (needs the big posting to go away entirely)
+  M4  keyword.normalize truncates float keywords to int
+  M6  BaseIndexMixin.docids drops not_indexed once more than 150 documents are indexed
+  M12 docids() cached on (indexed_count, not_indexed_count)
 `BaseIndexMixin.reindex_doc` without its unindex_doc is an equivalent mutant for these three classes (their
 index_doc handles a known id itself); the three classes override reindex_doc by index_doc.
 """
@@ -59,13 +69,18 @@ from lib.core import exc_name, idset
 
 ID = "C06"
 CASES = {"quick": 4000, "thorough": 120000}
-BUDGET_S = {"quick": 45, "thorough": 700}
+BUDGET_S = {"quick": 34, "thorough": 660}
 RULE = ("histories of index/reindex/unindex+index/unindex/reset (keyword, facet: also optimize() and "
         "tree_threshold changes over {1,2,3}, rarely 64) per index kind (field, keyword, facet, text with Okapi and cosine back "
         "ends, four pipelines, DICT_CUTOFF 2/3/default) incl. re-indexing identical content (same list, reordered, with duplicates), "
         "value <-> no value alternation, empty keyword/path lists on known and unknown ids, paths matching "
         "no configured facet, unindexing unknown ids, reset in the middle, both BTrees families, attribute and "
-        "callable discriminators, list and tuple values; after every operation the whole observable tuple "
+        "callable discriminators, list, tuple and set values, the value pools of C01/C02 (int, str incl. '', ints/"
+        "floats/bools mixed with 1 == 1.0 == True as one value, tuples, bytes, 120-value pools); bulk modes (about "
+        "12% of the field/keyword/facet cases): 70-400 documents with one posting of 65-400 docids or 35-110 "
+        "distinct values, optionally 121-199 documents without a value, a drain of the big posting back to 58-66 "
+        "docids or to nothing, 60% of the keyword/facet bulk cases under the class default tree_threshold, probes "
+        "rarely during loading, then the full tuple + fresh index, then after every third operation; after every operation the whole observable tuple "
         "(indexed, not_indexed, docids, the three counts, word_count, unique_values) and document_repr of "
         "touched and random ids (explicit and implicit default) are compared with the model, with the "
         "specification's table and with a freshly built real index over the current mapping; the hidden "
